@@ -60,17 +60,27 @@ def label(tokeniser: Any) -> Labels:
 def route_distinguisher(tokeniser: Any) -> RouteDistinguisher:
     data = tokeniser()
 
-    separator = data.find(':')
-    if separator > 0:
-        prefix = data[:separator]
-        suffix = int(data[separator + 1 :])
+    prefix, separator, assigned = data.partition(':')
+    if not separator or not (assigned.isascii() and assigned.isdigit()):
+        raise ValueError(
+            f"'{data}' is not a valid route-distinguisher\n"
+            f'  Format: <ipv4>:<16 bits>, <16 bits asn>:<32 bits> or <32 bits asn>:<16 bits>'
+        )
+    suffix = int(assigned)
 
     if '.' in prefix:
+        octets = prefix.split('.')
+        if len(octets) != IPv4.BYTES or not all(_.isascii() and _.isdigit() and int(_) <= 0xFF for _ in octets):
+            raise ValueError(f"invalid route-distinguisher {data}\n  '{prefix}' is not an IPv4 address")
+        if suffix >= pow(2, 16):
+            raise ValueError(f'invalid route-distinguisher {data}\n  The number after an IPv4 address is 16 bits')
         data_list: list[bytes] = [bytes([0, 1])]
-        data_list.extend([bytes([int(_)]) for _ in prefix.split('.')])
+        data_list.extend([bytes([int(_)]) for _ in octets])
         data_list.extend([bytes([suffix >> 8]), bytes([suffix & 0xFF])])
         rtd = b''.join(data_list)
     else:
+        if not (prefix.isascii() and prefix.isdigit()):
+            raise ValueError(f"invalid route-distinguisher {data}\n  '{prefix}' is neither a number nor an IPv4 address")
         number = int(prefix)
         if number < pow(2, 16) and suffix < pow(2, 32):
             rtd = bytes([0, 0]) + pack('!H', number) + pack('!L', suffix)
